@@ -1,8 +1,8 @@
 (* C18 (bag half): converting a ROS 1 bag to MCAP.
    All proofs are in theories/BagFacts.v; the model is theories/Bag.v (bag2mcap.go) composed with theories/Writer.v.
 
-   The ROS 2 db3 half of the property (Db3ToMCAP) depends on SQLite and the file system; it has no Gallina model and
-   is tied to the real code by the correspondence harness only. *)
+   The ROS 2 db3 half of the property (Db3ToMCAP) depends on SQLite and the file system; SQLite is abstracted as row
+   lists in theories/Db3.v, the theorems are in properties/C18_db3.v (proofs: theories/Db3Facts.v). *)
 From Coq Require Import List NArith ZArith Bool.
 From Coq.Strings Require Import Byte.
 From Mcap Require Import Bytes GoSem Records Writer Lexer Bag BagFacts.
